@@ -390,6 +390,47 @@ class Emit:
         return out
 
 
+def scalar_paths(e):
+    """all scalar lvalues of declaration e (an Emit): list of (path, type, is_bitfield); every array element"""
+    out = []
+
+    def of_type(t, path):
+        if is_agg(t):
+            of_agg(t, path)
+        elif t[0] == 'a':
+            for k in range(t[1]):
+                of_type(t[2], path + '[%d]' % k)
+        elif t[0] == 'x':
+            pass
+        else:
+            out.append((path, t, False))
+
+    def of_agg(t, path):
+        names = e.names_of[id(t)]
+        for m, nm in zip(t[1], names):
+            if m[0] == 'n':
+                of_type(m[1], (path + '.' if path else '') + nm)
+            elif m[0] == 'f':
+                out.append(((path + '.' if path else '') + nm, m[2], True))
+            elif m[0] == 'o':
+                of_agg(m[1], path)
+    of_agg(e.t, '')
+    return out
+
+
+def mask_code(e, var):
+    """C statements setting every non-padding bit of object `var` (of e's type)"""
+    out = ['memset (&%s, 0, sizeof %s);' % (var, var)]
+    for path, t, bf in scalar_paths(e):
+        if bf:
+            out.append('%s.%s = %s;' % (var, path, '1' if t == ('b', 'bool') else '-1'))
+        elif t == ('b', 'ldouble'):
+            out.append('memset (&%s.%s, 0xff, 10);' % (var, path))
+        else:
+            out.append('memset (&%s.%s, 0xff, sizeof %s.%s);' % (var, path, var, path))
+    return out
+
+
 PRELUDE = r'''
 #include <stdio.h>
 #include <string.h>
@@ -514,3 +555,84 @@ def shrink(t, fails, max_steps=300):
                 progress = True
                 break
     return t
+
+
+# ------------------------------------------------------------------ classification probes
+
+def passable(t):
+    """aggregates that can be passed/returned by value in our probes: no flexible array member"""
+    return not any(x[0] == 'x' for x in walk_types(t))
+
+
+def spy_tu(decls):
+    """gcc side: for each (i, type) print 'A i <classes>' (argument) and 'R i <classes>' (return value),
+    as observed in the registers by harness/c08_spy.S"""
+    out = ['#include "c08_spy.h"', 'static unsigned char c08_cur[1 << 16];']
+    calls = []
+    for i, t in decls:
+        e = Emit(i, t)
+        out += e.defs
+        tn = e.top
+        out += ['static %s retfn%d (void) { %s v; memcpy (&v, c08_cur, sizeof v); return v; }' % (tn, i, tn),
+                'static void spy%d (void) {' % i,
+                '  %s v, m; static unsigned char hidden[sizeof (%s) + 32];' % (tn, tn),
+                '  ' + ' '.join(mask_code(e, 'm')),
+                '  c08_fill (&v, sizeof v); c08_clobber (); ((void (*) (%s, long, double)) c08_spy) (v, C08_ML, C08_MD);' % tn,
+                '  c08_report_arg (%d, &v, &m, sizeof v);' % i,
+                '  memcpy (c08_cur, &v, sizeof v); memset (hidden, 0, sizeof hidden);',
+                '  c08_call_ret ((void *) retfn%d, hidden); c08_report_ret (%d, &v, &m, sizeof v, hidden);' % (i, i),
+                '}']
+        calls.append('  spy%d ();' % i)
+    out.append('int main (void) {')
+    out += calls
+    out += ['  return 0;', '}']
+    return '\n'.join(out) + '\n'
+
+
+# leading scalar arguments used to exhaust registers before the aggregate: (n longs, n doubles)
+PRE_ARGS = [(0, 0), (5, 0), (6, 0), (0, 7), (0, 8), (4, 6), (5, 7)]
+
+
+def sig_tu(decls):
+    """c2m side: function definitions whose MIR signatures (c2m -S) show the classification"""
+    out = []
+    for i, t in decls:
+        e = Emit(i, t)
+        out += e.defs
+        tn = e.top
+        out.append('%s sobj%d;' % (tn, i))
+        out.append('%s ret%d (void) { return sobj%d; }' % (tn, i, i))
+        for j, (nl, nd) in enumerate(PRE_ARGS):
+            ps = ['long l%d' % k for k in range(nl)] + ['double d%d' % k for k in range(nd)] + ['%s a' % tn]
+            out.append('void arg%d_%d (%s) { }' % (i, j, ', '.join(ps)))
+    return '\n'.join(out) + '\n'
+
+
+def parse_sigs(mir_text):
+    """{'ret<i>': 'IS'|'M'|'X'|..., 'arg<i>_<j>': ...} from c2m -S output"""
+    import re
+    res = {}
+    for m in re.finditer(r'^(ret\d+|arg\d+_\d+):\s+func\s*(.*)$', mir_text, re.M):
+        name, sig = m.group(1), m.group(2).strip()
+        parts = [p.strip() for p in sig.split(',')] if sig else []
+        if name.startswith('ret'):
+            if any(p.startswith('rblk:') for p in parts):
+                res[name] = 'M'
+            else:
+                s = ''
+                for p in parts:
+                    if ':' in p:
+                        break
+                    s += {'i8': 'I', 'u8': 'I', 'i16': 'I', 'u16': 'I', 'i32': 'I', 'u32': 'I', 'i64': 'I', 'u64': 'I',
+                          'f': 'S', 'd': 'S', 'ld': 'X'}.get(p, '?')
+                res[name] = s
+        else:
+            last = parts[-1]
+            mm = re.match(r'blk(\d):(\d+)\(', last)
+            if not mm:
+                res[name] = '?' + last
+                continue
+            k, size = int(mm.group(1)), int(mm.group(2))
+            nq = (size + 7) // 8
+            res[name] = {0: 'M', 1: 'I' * nq, 2: 'S' * nq, 3: 'IS', 4: 'SI'}[k]
+    return res
